@@ -1,8 +1,131 @@
-//! C05: out-of-space errors must not be premature.
+//! C05(b): an out-of-space error must not be premature: it may only be
+//! returned when the request really does not fit in the free clusters counted
+//! by an independent FAT scan taken just before the call.
+
 use crate::engines::fsx::Ctx;
+use crate::fsck::{self, DirLoc, FatView, SlotKind};
 use crate::interp::{Interp, StepInfo};
 use crate::runner::Failure;
 
-pub fn check_space_error(_it: &Interp, _ctx: &Ctx, _info: &StepInfo) -> Option<Failure> {
-    None
+fn fail(code: &str, detail: String) -> Failure {
+    Failure {
+        sig: format!("C05/{}", code),
+        detail,
+    }
+}
+
+/// Does the directory (by model node) have an unused slot inside its current extent?
+fn dir_has_free_slot(it: &Interp, ctx: &Ctx, dir: usize) -> Option<bool> {
+    let slot = it.nodes[dir].slot;
+    let vt = ctx.vols.iter().find(|v| v.slot == slot)?;
+    let path = it.path_of(dir);
+    it.disk.with_img(|img| {
+        let fv = FatView::new(img, &vt.lay);
+        let l = if path == "/" {
+            fsck::list_dir(img, &fv, DirLoc::Root)
+        } else {
+            let w = fsck::walk(img, &fv, &[]);
+            let n = fsck::find_path(&w.root, &path)?;
+            fsck::list_dir(img, &fv, DirLoc::Cluster(n.first))
+        };
+        Some(l.end_at.is_some() || l.slots.iter().any(|s| s.kind == SlotKind::Deleted))
+    })
+}
+
+pub fn check_space_error(it: &Interp, ctx: &Ctx, info: &StepInfo) -> Option<Failure> {
+    if !info.space_error {
+        return None;
+    }
+    let slot = info.slot?;
+    let vt = ctx.vols.iter().find(|v| v.slot == slot)?;
+    let free_before = info.free_before?;
+    let free_after = it.free_count(slot)?;
+    let cb = vt.lay.cluster_bytes() as u64;
+    match info.kind {
+        "Write" => {
+            let (off, n, accepted) = info.write?;
+            // clusters the file had before the call
+            let st = info.file_post.as_ref()?;
+            let chain_now = it.disk.with_img(|img| {
+                let fv = FatView::new(img, &vt.lay);
+                if st.first >= 2 {
+                    fsck::chain(&fv, st.first).0.len() as u64
+                } else {
+                    0
+                }
+            });
+            let allocated = free_before.saturating_sub(free_after) as u64;
+            let chain_before = chain_now.saturating_sub(allocated);
+            let need_total = (off as u64 + n as u64 + cb - 1) / cb;
+            // a zero-length write still needs a first cluster in this crate
+            let need_total = need_total.max(1);
+            let need_new = need_total.saturating_sub(chain_before);
+            if need_new <= free_before as u64 {
+                return Some(fail(
+                    "premature-disk-full",
+                    format!(
+                        "write of {} bytes at offset {} needed {} new cluster(s) and {} were free, but it failed with {}",
+                        n,
+                        off,
+                        need_new,
+                        free_before,
+                        info.err.clone().unwrap_or_default()
+                    ),
+                ));
+            }
+            // it did not fit: everything that was free must have been used, and the
+            // accepted prefix must fill the chain completely
+            if free_after != 0 {
+                return Some(fail(
+                    "space-left-after-disk-full",
+                    format!("write failed with {} but {} clusters are still free", info.err.clone().unwrap_or_default(), free_after),
+                ));
+            }
+            let end = off as u64 + accepted as u64;
+            if end != chain_now * cb && chain_now > 0 {
+                return Some(fail(
+                    "accepted-less-than-capacity",
+                    format!("write accepted bytes up to offset {} but the file's {} clusters hold {}", end, chain_now, chain_now * cb),
+                ));
+            }
+            None
+        }
+        "Open" | "Mkdir" => {
+            let dir = info.dir_node?;
+            let is_root16 = !vt.lay.fat32 && it.nodes[dir].parent.is_none();
+            let has_slot = dir_has_free_slot(it, ctx, dir)?;
+            let mut need: u32 = 0;
+            if !has_slot {
+                if is_root16 {
+                    return None; // fixed-size root directory is full: legitimate
+                }
+                need += 1;
+            }
+            if info.kind == "Mkdir" {
+                need += 1;
+            }
+            if need <= free_before {
+                return Some(fail(
+                    "premature-not-enough-space",
+                    format!(
+                        "{} {:?} needed {} cluster(s), {} were free, directory has free slot: {}, but it failed with {}",
+                        info.kind,
+                        info.name,
+                        need,
+                        free_before,
+                        has_slot,
+                        info.err.clone().unwrap_or_default()
+                    ),
+                ));
+            }
+            if free_after != free_before {
+                return Some(fail(
+                    "failed-create-consumed-space",
+                    format!("{} failed with {} but free clusters went from {} to {}", info.kind, info.err.clone().unwrap_or_default(), free_before, free_after),
+                ));
+            }
+            None
+        }
+        _ => None,
+    }
 }
